@@ -141,6 +141,7 @@ type Exec struct {
 	track *writeTracker
 
 	symbolicSeen bool
+	Extra        map[string]float64 // per-path additions to every model (hints for the native replay)
 	fnStack      []string
 	stubs        map[string]value
 	inStub       map[string]bool
@@ -192,6 +193,7 @@ func (ex *Exec) newPath() {
 	ex.Prune, ex.Merge = true, true
 	ex.track = nil
 	ex.ios = nil
+	ex.Extra = map[string]float64{}
 	ex.stubs = map[string]value{}
 	ex.inStub = map[string]bool{}
 	ex.stubInner = map[string]bool{}
@@ -981,6 +983,9 @@ func trimPath(f string) string {
 func (ex *Exec) modelOf(r smt.Result) (map[string]float64, map[string]string) {
 	m := map[string]float64{}
 	mx := map[string]string{}
+	for k, v := range ex.Extra {
+		m[k] = v
+	}
 	for _, in := range ex.Inputs {
 		if in.Sort == smt.Bool {
 			if r.Bools[in.Name] {
